@@ -281,26 +281,35 @@ AliasCandidates ==
     AliasEntry("probe.test", <<"a.test">>), AliasEntry("os", <<"probe.test", "fx">>), AliasEntry("fmt", <<"probe.test", "fy">>),
     AliasEntry("w", <<"probe.test", "we-ird.v2">>), AliasEntry("fx", <<"probe.test", "fx">>), AliasEntry("a.test", <<"probe.test", "p">>),
     AliasEntry("errors", <<"probe.test", "fy">>), AliasEntry("github.com", <<"probe.test", "fx">>), AliasEntry("st", <<"probe.test", "pq">>),
-    AliasEntry("context", <<"probe.test", "p">>), AliasEntry("reflect", <<"probe.test", "fx">>) }
+    AliasEntry("context", <<"probe.test", "p">>), AliasEntry("reflect", <<"probe.test", "fx">>),
+    AliasEntry("zz", <<"probe.test", "p">>) }            \* a target whose first element is itself an alias ("probe.test") that sorts earlier
 RefSegs == { <<"a">>, <<"ab">>, <<"a", "q">>, <<"p">>, <<"probe.test", "p">>, <<"probe.test", "pq">>, <<"probe.test", "p", "q">>,
              <<"probe.test", "x", "p">>, <<"os">>, <<"fmt">>, <<"w">>, <<"probe.test", "we-ird.v2">>, <<"fx">>, <<"a.test", "p">>,
-             <<"ab.test", "p">>, <<"a.test", "q">>, <<"probe.test", "fx">>, <<"st">>, <<"p", "p">> }
+             <<"ab.test", "p">>, <<"a.test", "q">>, <<"probe.test", "fx">>, <<"st">>, <<"p", "p">>, <<"zz">>, <<"zz", "q">> }
 RefImports == {INone, IDot} \cup {IPath(sg, q) : sg \in RefSegs, q \in BOOLEAN}
 AliasByName(n) == CHOOSE e \in AliasCandidates : e.n = n
 PairNames == { <<"a", "ab">>, <<"ab", "a">>, <<"a", "a.test">>, <<"p", "probe.test">>, <<"os", "fmt">>, <<"fx", "os">>, <<"st", "a">>,
-               <<"probe.test", "a.test">>, <<"github.com", "fx">>, <<"errors", "context">>, <<"reflect", "w">> }
+               <<"probe.test", "a.test">>, <<"github.com", "fx">>, <<"errors", "context">>, <<"reflect", "w">>,
+               <<"probe.test", "zz">>, <<"zz", "probe.test">>, <<"probe.test", "st">>, <<"a", "zz">> }
+QuickPairNames == { <<"probe.test", "zz">>, <<"zz", "probe.test">>, <<"a", "ab">> }
 TableSeqs(k) == {<<>>} \cup {<<e>> : e \in AliasCandidates}
-                \cup (IF k >= 2 THEN {<<AliasByName(pn[1]), AliasByName(pn[2])>> : pn \in PairNames} ELSE {})
+                \cup {<<AliasByName(pn[1]), AliasByName(pn[2])>> : pn \in (IF k >= 2 THEN PairNames ELSE QuickPairNames)}
 Exists(tbl, i) == Resolve(tbl, i) \in Universe \cup {Cur}
 
+TypeOnlyPkg == <<"probe.test", "fy">>
+TypeOnlyRef == IPath(TypeOnlyPkg, FALSE)
 ImportCfg(tbl, r1, r2, typed) ==
   [EmptyCfg EXCEPT
      !.meta = [EmptyMeta EXCEPT !.imports = [j \in 1..Len(tbl) |-> [n |-> tbl[j].n, v |-> PathText(tbl[j].segs)]],
                                 !.functions = <<[n |-> "fn", v |-> RefText(r2, "Fn")]>>],
      !.params = ("p1" :> APat(<<CFn("fn", "")>>)),
      !.services = (   "s1" :> [CtorSvc(RefText(r1, "NewA"), <<AValue(RefText(r2, "Var")), ARef("p1")>>) EXCEPT
-                                 !.getter = IF typed THEN "GetS1" ELSE Unset,
-                                 !.type = IF typed THEN "*" \o RefText(r1, "T") ELSE Unset]     \* untyped: a --stub build uses no user package at all
+                                 !.getter = IF typed = "typed" THEN "GetS1" ELSE Unset,
+                                 \* untyped: a --stub build uses no user package at all
+                                 \* typeonly: a type without a getter is printed nowhere, its package must not be imported
+                                 !.type = CASE typed = "typed" -> "*" \o RefText(r1, "T")
+                                            [] typed = "typeonly" -> "*" \o RefText(TypeOnlyRef, "T")
+                                            [] OTHER -> Unset]
                    @@ "s2" :> [EmptySvc EXCEPT !.value = RefText(r2, "Var"), !.tags = <<Tag("t1", 0)>>]
                    @@ "s3" :> [EmptySvc EXCEPT !.value = "&" \o RefText(r1, "S") \o "{}"]),
      !.decorators = <<Dec("t1", RefText(r1, "Decorate"), <<>>)>>]
@@ -321,8 +330,11 @@ ImportTriples(zz) ==
   {t \in TableSeqs(IF Family = "importsq" THEN 1 ELSE 2) \X RefImports \X RefImports :
       /\ TableWellFormed(t[1]) /\ Exists(t[1], t[2]) /\ Exists(t[1], t[3])
       /\ (TRUE => t[3] \in {t[2], INone, IDot, IPath(<<"a", "q">>, FALSE), IPath(<<"probe.test", "fx">>, TRUE), IPath(<<"probe.test", "x", "p">>, FALSE), IPath(<<"ab.test", "p">>, TRUE)})}
-ImportQuads(zz) == {<<t[1], t[2], t[3], TRUE>> : t \in ImportTriples(0)}
-               \cup {<<t[1], t[2], t[3], FALSE>> : t \in {x \in ImportTriples(0) : x[1] = <<>> /\ x[2].k = "path" /\ x[3].k = "path"}}
+ImportQuads(zz) == {<<t[1], t[2], t[3], "typed">> : t \in ImportTriples(0)}
+               \cup {<<t[1], t[2], t[3], "untyped">> : t \in {x \in ImportTriples(0) : x[1] = <<>> /\ x[2].k = "path" /\ x[3].k = "path"}}
+               \cup {<<t[1], t[2], t[3], "typeonly">> : t \in {x \in ImportTriples(0) : x[3] \in {x[2], INone} /\ Len(x[1]) <= 1
+                                                                  /\ TypeOnlyPkg \notin {Resolve(x[1], x[2]), Resolve(x[1], x[3])}
+                                                                  /\ Resolve(x[1], TypeOnlyRef) = TypeOnlyPkg}}
 ImportScript == <<OpGet("s1"), OpGet("s2"), OpGetParam("p1"), OpGet("s3")>> \o (IF IsSet(cfg0.services["s1"].getter) THEN <<OpGetter("GetS1")>> ELSE <<>>)
 
 -----------------------------------------------------------------------------
